@@ -123,6 +123,30 @@ fn classification(ev: &mut Ev, name: &[u8], want: Kind, hash: &str) -> CaseResul
     Ok(())
 }
 
+/// One name on which the readings of the rule differ (or which `Path`
+/// normalisation touches): no expected kind, but the library's two routes to
+/// the kind must agree - a line for the name is filed where the public
+/// classifier `EntryType::from` puts the name, under exactly that name.
+fn classification_consistent(ev: &mut Ev, name: &[u8], hash: &str) -> CaseResult {
+    let kind = lib_kind(EntryType::from(OsStr::from_bytes(name)));
+    ev.eval();
+    let mut m = DocModel::default();
+    let f = FileModel { name: name.to_vec(), kind, sums: vec![(ALGS[3], hash.to_string())], size: Some(7) };
+    match kind {
+        Kind::Dist => m.dist.push(f),
+        Kind::Patch => m.patch.push(f),
+    }
+    let mut text = sum_line(ALGS[3], name, hash);
+    text.extend_from_slice(b"Size (");
+    text.extend_from_slice(name);
+    text.extend_from_slice(b") = 7 bytes\n");
+    let di = Distinfo::from_bytes(&text);
+    ev.evals(compare_structure(&di, &m, true).map_err(|e| {
+        crate::fw::Fail::from(format!("EntryType::from({:?}) says {}, but a line for that name is filed differently: {}", show(name), kind.name(), e))
+    })?);
+    Ok(())
+}
+
 fn alias(ev: &mut Ev, d: &gd::AliasDoc) -> CaseResult {
     ev.count("alias/docs");
     ev.count(&format!("alias/form/{}", d.form));
@@ -188,6 +212,7 @@ pub fn run(cx: &mut Cx) {
         "name/long-30+bytes",
         "clause-name/patch",
         "clause-name/distfile",
+        "outside-agreed-zone/names",
     ] {
         cx.ev.require(k);
     }
@@ -275,6 +300,34 @@ pub fn run(cx: &mut Cx) {
                     ev.count(&format!("clause/{c}"));
                 }
                 classification(ev, &name, kind, &h)
+            },
+        );
+    }
+
+    // (b'') names outside the zone in which all readings of the rule agree:
+    // the rows of the table and clause names behind a directory, with a
+    // trailing or doubled separator, a dot component - consistency of the two
+    // routes only
+    let n = cx.per_shard(20, 3_000, 40_000, 400_000);
+    const DECOR: [(&[u8], &[u8]); 12] = [
+        (b"", b"/"), (b"", b"//"), (b"", b"/."), (b"./", b""), (b"sub/", b"/"), (b"sub//", b""), (b"sub/./", b""),
+        (b"/", b""), (b"sub/", b"//"), (b"a/b/", b"/."), (b"../", b""), (b"sub/", b""),
+    ];
+    for i in 0..n {
+        let mut name = if i % 2 == 0 { gd::CLASS_TABLE[(i as usize / 2) % gd::CLASS_TABLE.len()].0.to_vec() } else { gd::clause_name(&mut r) };
+        if i % 3 != 2 || (classify(&name).is_some() && crate::oracle::distinfo::path_plain(&name)) {
+            let (pre, post) = *r.pick(&DECOR);
+            name = [pre, &name[..], post].concat();
+        }
+        if name.is_empty() || (classify(&name).is_some() && crate::oracle::distinfo::path_plain(&name)) {
+            continue;
+        }
+        let h = gd::unique_hash(&mut r, ALGS[3], &mut serial);
+        cx.check(
+            || format!("consistent filing of {:?} (the readings of the rule differ on it)", show(&name)),
+            |ev| {
+                ev.count("outside-agreed-zone/names");
+                classification_consistent(ev, &name, &h)
             },
         );
     }
